@@ -194,6 +194,13 @@ fn one_run_client(ctx: &RunCtx) -> RunOut {
     if ntasks == 1 && draw(4) == 3 {
         kinds[0] = Kind::DropSender;
     }
+    // one run in four (not with DropSender): every task lets go of its SendRequest as soon as its request is out
+    // and the original is dropped up front, so "the last SendRequest was dropped" (H3_NO_ERROR) races with the
+    // errors the request handles detect themselves while their requests are still in flight
+    let early_drop = !kinds.contains(&Kind::DropSender) && draw(4) == 3;
+    if early_drop {
+        obs::count("probe.senders_dropped_while_requests_in_flight");
+    }
     // what the driver may detect itself / what the transport reports
     let driver_side = draw(4); // 0 nothing, 1 second control stream, 2 peer closes with an application code, 3 nothing
     let peer_close_code = *pick(&[0x101u64, 0x100, 0x10c]);
@@ -299,13 +306,14 @@ fn one_run_client(ctx: &RunCtx) -> RunOut {
         let kind = *kind;
         let fault = faults[t].clone();
         let keep = keep.clone();
-        let mut sr = send_request.clone();
+        let mut sr_slot = Some(send_request.clone());
         joins.push(std::thread::spawn(move || {
             let (sg, rg) = (st.clone(), rec.clone());
             guarded(id, &sg, &rg, move || {
             ME.with(|m| *m.borrow_mut() = Some((id, st.clone())));
             if st.wait_turn(id) {
                 let push = |call: &str, out: String| rec.lock().unwrap().handles.push((id, call.to_string(), out));
+                let sr = sr_slot.as_mut().unwrap();
                 match kind {
                     Kind::DropSender => {
                         // handled below: this thread's clone is the one that is dropped last
@@ -326,6 +334,9 @@ fn one_run_client(ctx: &RunCtx) -> RunOut {
                                 Err(e) => push("send_request", conn_of(&e).unwrap_or_else(|| format!("other: {e}"))),
                                 Ok(mut stream) => {
                                     let sid = stream.id().into_inner();
+                                    if early_drop {
+                                        drop(sr_slot.take()); // hooks active: the last one raises H3_NO_ERROR from this thread
+                                    }
                                     {
                                         // the peer answers with something that raises a connection error
                                         let mut n = net.lock().unwrap();
@@ -361,19 +372,21 @@ fn one_run_client(ctx: &RunCtx) -> RunOut {
                         }
                         // and a later send_request on the same handle
                         let req = http::Request::get("https://example.com/later").body(()).unwrap();
-                        if let Some(r) = block_on(id, &st, sr.send_request(req)) {
-                            match r {
-                                Err(e) => push("send_request(later)", conn_of(&e).unwrap_or_else(|| format!("other: {e}"))),
-                                Ok(s2) => {
-                                    push("send_request(later)", "ok".into());
-                                    keep.lock().unwrap().push(Box::new(s2));
+                        if let Some(sr) = sr_slot.as_mut() {
+                            if let Some(r) = block_on(id, &st, sr.send_request(req)) {
+                                match r {
+                                    Err(e) => push("send_request(later)", conn_of(&e).unwrap_or_else(|| format!("other: {e}"))),
+                                    Ok(s2) => {
+                                        push("send_request(later)", "ok".into());
+                                        keep.lock().unwrap().push(Box::new(s2));
+                                    }
                                 }
                             }
                         }
                     }
                 }
                 if kind == Kind::DropSender {
-                    drop(sr); // hooks active: the last sender's drop raises H3_NO_ERROR from this thread
+                    drop(sr_slot.take()); // hooks active: the last sender's drop raises H3_NO_ERROR from this thread
                     st.yield_with(id, St::Done, "done");
                     ME.with(|m| *m.borrow_mut() = None);
                     return;
@@ -381,12 +394,12 @@ fn one_run_client(ctx: &RunCtx) -> RunOut {
                 st.yield_with(id, St::Done, "done");
             }
             ME.with(|m| *m.borrow_mut() = None);
-            keep.lock().unwrap().push(Box::new(sr));
+            keep.lock().unwrap().push(Box::new(sr_slot));
             });
         }));
     }
     // the original SendRequest: dropped up front when a task is to be the last sender, kept otherwise
-    if kinds == vec![Kind::DropSender] {
+    if kinds == vec![Kind::DropSender] || early_drop {
         drop(send_request);
     } else {
         keep.lock().unwrap().push(Box::new(send_request));
